@@ -374,7 +374,8 @@ package sqlx
 //@ spec }
 
 //@ func dependsOn(c1, c2 schema.Change, o SortOptions) (r bool)
-//@   requires (forall c schema.Change :: gvcDepChangeOK(c))
+//@   requires gvcDepChangeOK(c1) && gvcDepChangeOK(c2)
+//@   requires (forall m *schema.ModifyTable, k int :: m != nil && 0 <= k && k < len(m.Changes) ==> gvcDepChangeOK(m.Changes[k]))
 //@   requires (forall t *schema.Table, i int :: t != nil && 0 <= i && i < len(t.ForeignKeys) ==> t.ForeignKeys[i] != nil)
 //@   requires (forall t *schema.Table, i int :: t != nil && 0 <= i && i < len(t.Columns) ==> t.Columns[i] != nil && t.Columns[i].Type != nil)
 //@   requires (forall t *schema.Table :: t != nil ==> t.Schema != nil)
